@@ -256,43 +256,11 @@ def parser_stack(P, R):
 
 def r_parser(P, R):
     parser_stack(P, R)
-    # the translator drops the manager and the LR stack after a parse
-    f = P.func('dd._parser._Translator.parse')
-    cs = sorted(au.calls_in(f.node), key=lambda c: (c.lineno, c.col_offset))
-    calls = [au.call_name(c) for c in cs]
-    if 'parse' in calls and '_reset_state' in calls and calls.index(
-            '_reset_state') > calls.index('parse'):
-        R.holds('R-PAIR', f.qualname, 'parser state is reset after each '
-                'successful parse')
-    else:
-        R.violation('R-PAIR', 'parser-stack', f.qualname, '_reset_state',
-                    'the cached translator keeps the manager and the LR '
-                    'stack of the previous formula', unit=f.unit.rel,
-                    line=f.lineno)
-    g = P.func('dd._parser._Translator._reset_state')
-    # the manager is dropped unconditionally (an assignment of None at the
-    # top level of the body, before any return), and the LR stacks are
-    # restarted (possibly under a test that the parser has them)
-    drops = False
-    for st in g.node.body:
-        if isinstance(st, ast.Return) or (isinstance(st, ast.If) and any(
-                isinstance(x, ast.Return) for x in ast.walk(st))):
-            break
-        if isinstance(st, ast.Assign) and isinstance(
-                st.value, ast.Constant) and st.value.value is None and \
-                any(au.chain(t) == ['self', '_bdd'] for t in st.targets):
-            drops = True
-    restarts = any(au.call_name(c) == 'restart'
-                   for c in au.calls_in(g.node))
-    if drops and restarts:
-        R.holds('R-PAIR', g.qualname, 'drops the manager and restarts the '
-                'LR stacks')
-    else:
-        R.violation('R-PAIR', 'parser-stack', g.qualname, 'restart',
-                    '_reset_state no longer drops the manager and '
-                    'restarts the LR stacks', unit=g.unit.rel,
-                    line=g.lineno)
-    parser_binding(P, R)
+    # the shared translator: bound to the manager of each call before the
+    # grammar runs, dropped and restarted after a successful parse -
+    # decided on the translator model
+    from . import models
+    models.translator_model(P, R)
 r_parser.NAME = 'R-PAIR(parser state)'
 
 
